@@ -29,7 +29,8 @@ OPEN_STATEMENTS = [
     'exp(-i t G) / decomposition == gate only; no theorem',
     'bogoliubov_transform / prepare_* / optimal_givens_decomposition / ffft: the conjugation identity and the prepared '
     'states are checked numerically (oracle, <= 5 resp. 8 qubits); the Givens decompositions themselves belong to C11; '
-    'ffft_spec (Cooley-Tukey exponent table) is not proved, only the recursion structure is mirrored',
+    'ffft_spec_partial proves that the Cooley-Tukey index recursion gives the DFT exponent table for every factor list; that each '
+    'emitted gate acts on the single-particle coefficients as the recursion assumes (hence the unitary claim) is NOT proved (oracle)',
     'swap_network: the number of callback calls n(n-1)/2 is implied by swap_network_pair_once + swap_network_calls_adjacent '
     'but not stated as a separate theorem',
 ]
@@ -1163,6 +1164,18 @@ def primitives_stream(ctx, lad):
                 check(case, 'conjugation: ffft U a^_k U^-1 = n^-1/2 sum_m e^{-2 pi i km/n} a^_m',
                       maxdiff(U @ lad.get(n, k, 1) @ U.conj().T, sum(F[k, m] * lad.get(n, m, 1) for m in range(n))),
                       1e-8)
+            # the Model's Cooley-Tukey exponent table (ctExp, theorem ffft_spec_partial) vs the single-particle
+            # coefficients of the real circuit:  U a^_k U^-1 |vac> = sum_j C_kj a^_j |vac>
+            table = ctx.driver.one({'op': 'c14.ffftexp', 'n': n})
+            vac = np.zeros(2 ** n, dtype=complex)
+            vac[0] = 1
+            C = np.array([[(U @ lad.get(n, k, 1) @ U.conj().T @ vac)[1 << (n - 1 - j)] for j in range(n)]
+                          for k in range(n)])
+            want = np.array([[np.exp(-2j * np.pi * table[k][j] / n) for j in range(n)] for k in range(n)]) / np.sqrt(n)
+            st.float_comparisons += 1
+            if not maxdiff(C, want) <= 1e-8:
+                st.disagree('ffft single-particle coefficients vs the Model exponent table ctExp', case,
+                            np.round(C, 6).tolist(), table)
     return st
 
 
